@@ -67,6 +67,26 @@ Theorem C18_str_is_concat : forall t,
 Proof. intros; reflexivity. Qed.
 Print Assumptions C18_str_is_concat.
 
+(* For all trees whose payloads other than the error text (root/leaf reprs, names, source lines,
+   descriptions, type names) contain no "\n" -- the negation of F12's signature -- every
+   element of format() ends with "\n" and contains no other "\n".  The error text is
+   unconstrained: str.splitlines() pieces are re-terminated by the code (fix of F20). *)
+Theorem C18_newline_terminated : forall o t,
+  clean_stack t = true -> single_lines (fmt_stack_str o t) = true.
+Proof. exact newline_terminated. Qed.
+Print Assumptions C18_newline_terminated.
+
+(* the hypothesis is met by a tree with contexts whose error text contains \r, \n, \x85, \u2028 *)
+Example C18_newline_terminated_example :
+  let t := Stk (Some (a "<root>"))
+               [Frm (a "f") None (Some (a "m")) (a "x.py") 3%N (a "return 1") [] false false
+                    [Ctx (Some (a "T")) false false (Some (a "v")) (Some 2%N) (Some (a "d")) (a "with t() as v:") [] []
+                         (Some (Stk None [] (Some (a "leaf")) (Some [a "ValueError: a" ++ [13%N] ++ a "b" ++ [10%N; 133%N] ++ a "c" ++ [8232%N] ++ nl]))) [] false]]
+               None (Some [a "KeyError: x" ++ [13%N; 10%N] ++ a "y" ++ [13%N]]) in
+  clean_stack t = true
+  /\ List.length (fmt_stack_str {| M_Format.ascii := false; show_ctx := true; show_hidden := false |} t) = 14.
+Proof. vm_compute. split; reflexivity. Qed.
+
 (* known finding F12 *)
 Theorem C18_F12_refuted : exists t o, single_lines (fmt_stack_str o t) = false.
 Proof. exact F12_refuted. Qed.
